@@ -3,7 +3,7 @@
    1 <= |pdu| <= 65534 and the PDU decodes to the item's request ([valid_rsp_frame] likewise).
    [take_items dec n st evs] performs n successive [next]s and returns the n items. *)
 From Coq Require Import Lia.
-From TM Require Import Base Frame Pdu RtuCodec TcpCodec Framed FramedProofs TcpProofs StreamProofs.
+From TM Require Import Base Frame Pdu RtuCodec TcpCodec Framed Client Server FramedProofs TcpProofs StreamProofs Histories Slices SlicesClient.
 
 (* any concatenation of well-formed frames, under EVERY composition into non-empty read chunks, is
    delivered frame by frame, each once, in order, header and PDU intact; nothing is left over *)
@@ -59,3 +59,25 @@ Proof. exact tcp_frame_shape. Qed.
 (* non-vacuity *)
 Example C05_ex : valid_req_frame [0x12; 0x34; 0; 0; 0; 2; 0x56; 0x11] ((0x1234, 0x56), ReqReportServerId).
 Proof. exists 0x1234, 0x56, [0x11]. unfold hdr_ok. repeat split; cbn; lia. Qed.
+
+(* ---- arbitrary streams (not only concatenations of well-formed frames) ----
+   whatever bytes arrive, in whatever fragmentation, and however the connection ends: every request handed to
+   the service is carried by its own contiguous slice  tid(2) 00 00 len(2) unit pdu  with len = |pdu| + 1 of the
+   received stream, the slices are pairwise disjoint and in stream order -- so nothing is ever taken from the
+   bytes of the next frame, no frame is delivered twice, and a header with a non-zero protocol identifier is
+   never the header of a delivered frame *)
+Theorem C05_served_requests_are_disjoint_slices : forall m q wq fq svc, bytes_ok (sdata q) = true ->
+  exists rest, Slices (call_slice TCP) (sdata q) (calls (serve_conn TCP m q wq fq svc)) rest.
+Proof. exact (serve_conn_slices TCP). Qed.
+Theorem C05_served_slice_shape : forall f c, call_slice TCP f c ->
+  exists t1 t2 l1 l2 pdu, f = t1 :: t2 :: 0 :: 0 :: l1 :: l2 :: fst c :: pdu
+    /\ of_be16 l1 l2 = len pdu + 1 /\ dec_req pdu = Val (snd c).
+Proof. exact tcp_call_slice. Qed.
+(* the same for the replies consumed by the calls of any client history *)
+Theorem C05_consumed_replies_are_disjoint_slices : forall m ops st, bytes_ok (stream st ++ delivered ops) = true ->
+  Slices (client_slice TCP) (stream st ++ delivered ops) (replies TCP m st ops) (stream (run_ops TCP m st ops)).
+Proof. exact (history_slices TCP). Qed.
+Theorem C05_reply_slice_shape : forall f i, client_slice TCP f i ->
+  exists t1 t2 l1 l2 pdu, f = t1 :: t2 :: 0 :: 0 :: l1 :: l2 :: snd (fst i) :: pdu
+    /\ fst (fst i) = of_be16 t1 t2 /\ of_be16 l1 l2 = len pdu + 1 /\ dec_rsp_pdu pdu = Val (snd i).
+Proof. exact tcp_client_slice. Qed.
